@@ -1,0 +1,176 @@
+//go:build verif
+
+// Verification hooks (additive, only built with -tags verif).  They let the /verif harness step the
+// IPAM garbage collector synchronously instead of through its channels and timers, move its stored
+// timestamps back (virtual time: the controller reads time.Now() directly), and take a plain-data
+// snapshot of its bookkeeping maps.  Nothing here changes behaviour.
+
+package node
+
+import (
+	"sort"
+	"time"
+
+	v1 "k8s.io/api/core/v1"
+	metav1 "k8s.io/apimachinery/pkg/apis/meta/v1"
+
+	bapi "github.com/projectcalico/calico/libcalico-go/lib/backend/api"
+	"github.com/projectcalico/calico/libcalico-go/lib/backend/model"
+)
+
+// VerifHandleUpdate feeds one syncer update (bapi.SyncStatus or model.KVPair) to the controller,
+// exactly as the main loop does for items read from syncerUpdates.
+func (c *IPAMController) VerifHandleUpdate(upd any) { c.handleUpdate(upd) }
+
+// VerifOnUpdate / VerifOnStatusUpdate are the callbacks RegisterWith hands to the data feed.
+func (c *IPAMController) VerifOnUpdate(u bapi.Update)            { c.onUpdate(u) }
+func (c *IPAMController) VerifOnStatusUpdate(s bapi.SyncStatus) { c.onStatusUpdate(s) }
+
+// VerifSyncIPAM runs one sync pass.
+func (c *IPAMController) VerifSyncIPAM() error { return c.syncIPAM() }
+
+// VerifFullScanNextSync is what the periodic tick and the node-deletion batch do before a sync.
+func (c *IPAMController) VerifFullScanNextSync(reason string) { c.fullScanNextSync(reason) }
+
+// VerifPodDeleted is what the main loop does for each pod read from podDeletionChan.
+func (c *IPAMController) VerifPodDeleted(p *v1.Pod) { c.allocationState.markDirtyPodDeleted(p) }
+
+// VerifUpdateMetrics is what the main loop does after a triggered sync.
+func (c *IPAMController) VerifUpdateMetrics() { c.updateMetrics() }
+
+// VerifResetMetrics unregisters the per-pool metric vectors (process-global) so that a new
+// controller instance in the same process can register them again.
+func VerifResetMetrics() {
+	names := []string{}
+	for n := range inUseAllocationGauges {
+		if n != unknownPoolLabel {
+			names = append(names, n)
+		}
+	}
+	for _, n := range names {
+		unregisterMetricVectorsForPool(n)
+		clearPoolMetrics(n)
+	}
+}
+
+// VerifShiftTime moves every timestamp the controller compares with time.Now() back by d.
+func (c *IPAMController) VerifShiftTime(d time.Duration) {
+	for _, allocs := range c.allocationsByBlock {
+		for _, a := range allocs {
+			if a.leakedAt != nil {
+				t := a.leakedAt.Add(-d)
+				a.leakedAt = &t
+			}
+		}
+	}
+	for k, t := range c.blockReleaseTracker.blocks {
+		c.blockReleaseTracker.blocks[k] = t.Add(-d)
+	}
+	for k, t := range c.coldBlocks {
+		c.coldBlocks[k] = metav1.NewTime(t.Add(-d))
+	}
+	for _, kvp := range c.allBlocks {
+		b, ok := kvp.Value.(*model.AllocationBlock)
+		if !ok || b == nil {
+			continue
+		}
+		for i := range b.Attributes {
+			if b.Attributes[i].ReleasedAt != nil {
+				t := metav1.NewTime(b.Attributes[i].ReleasedAt.Add(-d))
+				b.Attributes[i].ReleasedAt = &t
+			}
+		}
+	}
+}
+
+// VerifAllocation is a plain copy of one tracked allocation.
+type VerifAllocation struct {
+	ID        string
+	IP        string
+	Handle    string
+	Block     string
+	Node      string
+	KNode     string
+	Seq       uint64
+	Candidate bool
+	Confirmed bool
+}
+
+// VerifState is a plain-data copy of the controller's bookkeeping.
+type VerifState struct {
+	AllBlocks           []string
+	AllocationsByBlock  map[string][]VerifAllocation
+	AllocationsByNode   map[string][]string
+	AllocationsByHandle map[string][]string
+	ConfirmedLeaks      []string
+	NodesByBlock        map[string]string
+	BlocksByNode        map[string][]string
+	EmptyBlocks         map[string]string
+	ColdBlocks          []string
+	ReleaseTracked      []string
+	DirtyNodes          []string
+	FullSyncRequired    bool
+	K8sNodeByCalicoNode map[string]string
+	SyncStatus          bapi.SyncStatus
+}
+
+func sortedKeys[V any](m map[string]V) []string {
+	out := make([]string, 0, len(m))
+	for k := range m {
+		out = append(out, k)
+	}
+	sort.Strings(out)
+	return out
+}
+
+// VerifSnapshot copies the bookkeeping maps.  Must not be called concurrently with the main loop.
+func (c *IPAMController) VerifSnapshot() VerifState {
+	s := VerifState{
+		AllBlocks:           sortedKeys(c.allBlocks),
+		AllocationsByBlock:  map[string][]VerifAllocation{},
+		AllocationsByNode:   map[string][]string{},
+		AllocationsByHandle: map[string][]string{},
+		ConfirmedLeaks:      sortedKeys(c.confirmedLeaks),
+		NodesByBlock:        map[string]string{},
+		BlocksByNode:        map[string][]string{},
+		EmptyBlocks:         map[string]string{},
+		ColdBlocks:          sortedKeys(c.coldBlocks),
+		ReleaseTracked:      sortedKeys(c.blockReleaseTracker.blocks),
+		DirtyNodes:          sortedKeys(c.allocationState.dirtyNodes),
+		FullSyncRequired:    c.fullSyncRequired,
+		K8sNodeByCalicoNode: map[string]string{},
+		SyncStatus:          c.syncStatus,
+	}
+	for blk, allocs := range c.allocationsByBlock {
+		l := make([]VerifAllocation, 0, len(allocs))
+		for _, id := range sortedKeys(allocs) {
+			a := allocs[id]
+			l = append(l, VerifAllocation{ID: id, IP: a.ip, Handle: a.handle, Block: a.block, Node: a.node(), KNode: a.knode,
+				Seq: a.sequenceNumber, Candidate: a.isCandidateLeak(), Confirmed: a.isConfirmedLeak()})
+		}
+		s.AllocationsByBlock[blk] = l
+	}
+	for n, allocs := range c.allocationState.allocationsByNode {
+		s.AllocationsByNode[n] = sortedKeys(allocs)
+	}
+	for h, allocs := range c.handleTracker.allocationsByHandle {
+		s.AllocationsByHandle[h] = sortedKeys(allocs)
+	}
+	for b, n := range c.nodesByBlock {
+		s.NodesByBlock[b] = n
+	}
+	for n, blks := range c.blocksByNode {
+		s.BlocksByNode[n] = sortedKeys(blks)
+	}
+	for b, n := range c.emptyBlocks {
+		s.EmptyBlocks[b] = n
+	}
+	for cn, kn := range c.kubernetesNodesByCalicoName {
+		s.K8sNodeByCalicoNode[cn] = kn
+	}
+	return s
+}
+
+// VerifRunLoop is Start() without the "go": it runs the controller's main loop in the caller's
+// goroutine and returns when stop is closed, so that the harness can wait for it to finish.
+func (c *IPAMController) VerifRunLoop(stop chan struct{}) { c.acceptScheduleRequests(stop) }
